@@ -16,7 +16,7 @@ Verdict(x) ==
       closeWritten(p) == \E i \in 1..(p - 1) : (tr[i].k = "wr" /\ tr[i].what = "frame" /\ tr[i].op = OpClose)
                                                 \/ (tr[i].k = "wrf" /\ tr[i].op = OpClose)      \* attempted: connection is closing
       \* the library was closing/closed or the transport had failed when the Ping was processed
-      appClosed(p) == \E i \in 1..(p - 1) : tr[i].k = "call" /\ tr[i].m = "close"
+      appClosed(p) == \E i \in 1..(p - 1) : IsCloseCall(tr[i])
       pongFailed(p) == \E i \in 1..(p - 1) : tr[i].k = "wrf" /\ tr[i].op = OpPong
                           /\ \A j \in (i + 1)..(p - 1) : tr[j].k # "ev"
       answerable(p) == cfg.auto_pong /\ ~closeWritten(p) /\ ~appClosed(p) /\ ~pongFailed(p)
